@@ -1,6 +1,7 @@
 package sym
 
 import (
+	"go/token"
 	"fmt"
 	"strconv"
 	"go/types"
@@ -121,16 +122,50 @@ func zeroLike(v value) value {
 	panic(abortPath{why: fmt.Sprintf("clear on slice of %T", v), kind: "unsupported"})
 }
 
+// symLess decides a < b for integer operands of which at least one is symbolic (a fork when the
+// path condition does not settle it). Symbolic bytes are unsigned, everything else is signed.
+func symLess(ex *Exec, a, b value) bool {
+	t := types.Typ[types.Int64]
+	for _, x := range []value{a, b} {
+		switch v := x.(type) {
+		case symBV:
+			switch v.w {
+			case 8:
+				t = types.Typ[types.Uint8]
+			case 32:
+				t = types.Typ[types.Int32]
+			case 16:
+				t = types.Typ[types.Int16]
+			}
+		case symFP, symStr, symBool:
+			panic(abortPath{why: "min/max on symbolic non-integer operands", kind: "unsupported"})
+		}
+	}
+	switch c := binop(ex, token.LSS, t, a, b).(type) {
+	case bool:
+		return c
+	case symBool:
+		return ex.decide(c.t)
+	}
+	panic(abortPath{why: "min/max: comparison", kind: "unsupported"})
+}
+
 func minv(ex *Exec, a, b value) value {
 	if isSym(a) || isSym(b) {
-		panic(abortPath{why: "min on symbolic operands", kind: "unsupported"})
+		if symLess(ex, b, a) {
+			return b
+		}
+		return a
 	}
 	return min(a, b)
 }
 
 func maxv(ex *Exec, a, b value) value {
 	if isSym(a) || isSym(b) {
-		panic(abortPath{why: "max on symbolic operands", kind: "unsupported"})
+		if symLess(ex, a, b) {
+			return b
+		}
+		return a
 	}
 	return max(a, b)
 }
